@@ -1,6 +1,7 @@
 """C06 - replica counting honours links, isolation and the replication filter."""
 import re
 from . import register
+from .common import rehash_core, rehash_core_path, rehash_rx
 from ..analysis import (backslice, aggregates, agg_field, switch_targets_bool, count_nots, closure_creation, forward_locals,
                         direct_field, direct_def, comparisons, branch_of, variant_arms, dominated_region, FLIP, field_writes)
 from ..facts import const_int, op_local, op_place, op_const, const_val, rvalue_operands, rvalue_places
@@ -206,7 +207,7 @@ def stage_filters(lib):
                 if cr:
                     parent, bi, stt = cr
                     fl = forward_locals(parent, stt['p'][0])
-                    for rc in parent.calls(r'group::rehash$'):
+                    for rc in parent.calls(rehash_rx(lib)):
                         for i, a in enumerate(rc.args):
                             if op_local(a) in fl:
                                 pos = i
@@ -226,7 +227,7 @@ def r3(ctx, rule):
         return
     sf = stage_filters(lib)
     ctx.stats[rule + ':stage post-filters'] = {k: (v[0] if v else None) for k, v in sf.items()}
-    n_rehash = sum(len(lib.body(p).calls(r'group::rehash$')) for p in lib.bodies if p.startswith('group::group_') and '{' not in p)
+    n_rehash = sum(len(lib.body(p).calls(rehash_rx(lib))) for p in lib.bodies if p.startswith('group::group_') and '{' not in p)
     ctx.floor(rule, 'rehash call sites in the stage functions', n_rehash, 4)
     # producers of the value that is finally sorted and returned
     sorts = [c for c in b.calls() if re.search(r'par_sort_by_key$|sort_by_key$|par_sort', c.path.rsplit('::', 1)[-1])]
